@@ -32,7 +32,8 @@ RULE = (
     "children always carry stray text outside blocks; ctl = root blocks wrapped in "
     "if/for, block.super used twice, bodies reading data / root-assigned / loop variables; "
     "struct = one structural defect (duplicate name, second extends, endblock mismatch, "
-    "text before extends) injected at every chain position; cyc = ALL extends graphs on "
+    "text or a block before extends, the extends tag inside capture / if / with) injected "
+    "at every chain position; cyc = ALL extends graphs on "
     "<= 4 templates from every entry; entry = chains entered through include/render from "
     "plain templates, for loops, root text, root blocks and override blocks of another "
     "chain, and plain pages that after entering a chain go on to render its base, a bare "
@@ -445,6 +446,12 @@ class Runner:
             text = A[1]
             if "^" in text:
                 return "text-before-extends-leaks"
+            chain = M.chain_of(prog, entry) or []
+            if any(it[0] == "cap" and M.extends_of(it[2]) for n in chain[:1]
+                   for it, _ in M.walk(prog[n])):
+                # the entry's extends tag runs inside a capture: the whole page goes
+                # into the capture buffer and the render stops
+                return "extends-inside-capture-output-lost"
             if "~" in text:
                 return "stray-child-text-leaks"
             for name, sem in (
@@ -577,6 +584,11 @@ class Runner:
         ctx.ev(len(obs))
         if self.nosup_cur:
             ctx.count("nosuppress_cases")
+        if self.ws_cur and E.kind == "out" and any(
+                a[0] == "out" and a[1] != E.text for m, a in obs.items() if m in MODES):
+            # diagnostic, not judged: whitespace of a blank block body / override dropped
+            # by the default blank-body suppression (exact with suppression off)
+            ctx.count("blank_whitespace_dropped_by_default_suppression")
         if self.last_Eesc is not None:
             ctx.count("auto_escape_cases")
             ctx.count("auto_escape_supers_checked", self.last_Eesc.stats["supers"])
@@ -1148,7 +1160,8 @@ def _fam_ctl(r: Runner, spec: dict, ctx: Ctx) -> None:
 
 DEFECTS = ("dup-fresh-flat", "dup-fresh-nested", "dup-existing", "dup-across-nesting",
            "dup-in-if", "extends2-top", "extends2-in-block", "extends2-other",
-           "endblock-mismatch", "endblock-mismatch-nested", "pre-extends-text")
+           "endblock-mismatch", "endblock-mismatch-nested", "pre-extends-text",
+           "pre-extends-block", "extends-in-capture", "extends-in-if", "extends-in-with")
 
 
 def inject(prog: dict, k: int, defect: str, pfx: str = "t") -> dict | None:
@@ -1195,6 +1208,23 @@ def inject(prog: dict, k: int, defect: str, pfx: str = "t") -> dict | None:
         if parent is None:
             return None
         items.insert(0, ["t", f"^{k}^"])
+    elif defect == "pre-extends-block":
+        # a block written before the extends tag is still just one of the template's
+        # block definitions; it must not be rendered on its own first
+        if parent is None:
+            return None
+        name = next((n for n in ("a", "b") if n not in existing), "pz")
+        items.insert(0, ["b", name, False, [["t", f"^{k}{name}^"]], None])
+    elif defect.startswith("extends-in-"):
+        # the template's only extends sits inside a container: it is still the link to
+        # the parent, the page is still the root's text
+        if parent is None:
+            return None
+        i = next(j for j, it in enumerate(items) if it[0] == "x")
+        x = items[i]
+        items[i] = {"extends-in-capture": ["cap", "zc", [x]],
+                    "extends-in-if": ["if", "yes", [x]],
+                    "extends-in-with": ["with", "q", "d", [x]]}[defect]
     return p
 
 
@@ -1919,7 +1949,7 @@ def shards(tier: str, seed: int) -> list[dict[str, Any]]:  # noqa: ARG001
     n = 3 if q else 6
     for i in range(n):
         specs.append({"kind": "ctl", "i": i, "n": n})
-    n = 2
+    n = 3 if q else 4
     for i in range(n):
         specs.append({"kind": "struct", "i": i, "n": n})
     specs.append({"kind": "cyc", "i": 0, "n": 1})
